@@ -8,6 +8,7 @@ tmp = tempfile.mkdtemp(prefix="verif_harmless_")
 wt = os.path.join(tmp, "wt")
 subprocess.run(["git", "-C", "/repo", "worktree", "add", "-q", "--detach", wt, "HEAD"], check=True)
 bad = 0
+subprocess.run([os.path.join(VERIF, "check"), "--setup"], cwd=VERIF, capture_output=True)
 try:
     for d in sorted(glob.glob(os.path.join(VERIF, "selftest", "harmless", "*"))):
         name = os.path.basename(d)
